@@ -255,8 +255,11 @@ def step (_ : Unit) (line : String) : Unit × String :=
       match parseTyS q with
       | some t =>
         if decls.all Option.isSome then
-          let r := Gates.resolveSupersM (decls.filterMap id) t
-          ((), s!"c={bit r.2.1} x={bit r.2.2} {if r.1.isEmpty then "-" else "|".intercalate (r.1.map showTy)}")
+          let ds := decls.filterMap id
+          let r := Gates.resolveSupersM ds t
+          -- hypothesis `WfTab` of cycle_detected_memo: every declared super type is a nominal type
+          let wf := ds.all fun d => d.supers.all fun s => (Gates.keyOf s).isSome
+          ((), s!"c={bit r.2.1} x={bit r.2.2}{if wf then "" else " NOT-WF"} {if r.1.isEmpty then "-" else "|".intercalate (r.1.map showTy)}")
         else ((), "bad-decl")
       | none => ((), "bad-type")
     | _ => ((), "bad-op")
